@@ -160,7 +160,7 @@ def main():
     try:
         if replay:
             return do_replay(prop, spec, replay, scratch)
-        deadline = float(os.environ.get("VERIF_DEADLINE_S", spec.get("deadline_" + tier, 1500 if tier == "thorough" else 240)))
+        deadline = float(os.environ.get("VERIF_DEADLINE_S", spec.get("deadline_" + tier, 900 if tier == "thorough" else 300)))
         stages = [s for s in spec["stages"] if tier in s.get("tiers", ["quick", "thorough"])]
         results = {}
         herr = None
